@@ -1,12 +1,12 @@
 package main
 
 import (
-	"encoding/hex"
 	"bytes"
 	"crypto"
 	stded "crypto/ed25519"
 	"crypto/sha512"
 	"encoding/binary"
+	"encoding/hex"
 	"fmt"
 	"io"
 	"math/big"
